@@ -30,18 +30,16 @@ theorem tag_counter (T : Tables) (R : RenderCfg) (g : Gen) (name : Str) (bnd : O
     (kwargs : List (Str × Val)) :
     (step T R g (.tag name bnd kwargs)).1.ctx = g.ctx ∨
     ∃ n : Int, n > 0 ∧ counter g = some n ∧ counter (step T R g (.tag name bnd kwargs)).1 = some (n + 1) := by
-  rcases step_tag_cases T R g name bnd kwargs with ⟨s, g', hc, hst⟩ | ⟨e, hst⟩
-  · rw [hst]
-    obtain ⟨_, hctx⟩ := callTag_ctx hc
-    rcases hctx with heq | ⟨n, hn, hg, hs⟩
-    · left; exact heq
-    · right
-      obtain ⟨e, _⟩ := setItem_ok hs
-      refine ⟨n, hn, by simp [counter, hg], ?_⟩
-      simp only [counter]
-      rw [e]
-      simp [Ctx.getItem, Dict.get?_set_self, pure, Except.pure]
-  · rw [hst]; left; rfl
+  obtain ⟨g', o, hst, _, hctx⟩ := step_tag_effect T R g name bnd kwargs
+  rw [hst]
+  rcases hctx with heq | ⟨n, hn, hg, hs⟩
+  · left; exact heq
+  · right
+    obtain ⟨e, _⟩ := setItem_ok hs
+    refine ⟨n, hn, by simp [counter, hg], ?_⟩
+    simp only [counter]
+    rw [e]
+    simp [Ctx.getItem, Dict.get?_set_self, pure, Except.pure]
 
 /-- TABINDEX INCREASING: along any sequence of tag calls made in one scope (no other call in
     between), starting from a positive counter `n`, the values handed out are strictly increasing
